@@ -226,12 +226,29 @@ def auth_part(ctx, binary):
         rnd.shuffle(senders)
         for j, c in enumerate(creds):
             cases.append(dict(path=senders[j % len(senders)], cred=c))
+    # interleaved handshakes: a second PasswordAuthenticator with DIFFERENT credentials answers between this
+    # connection's Challenge and its AUTH_RESPONSE (quick: every credential pair once on a rotating behaviour and
+    # every token-sending password behaviour once; thorough: the full product)
+    inter = []
+    pw_senders = [p for p in paths if p["kind"] == "pw" and p["sent"] and "challenge" not in p["script"]]
+    if quick:
+        for j, c in enumerate(creds):
+            inter.append(dict(path=pw_senders[(j + ctx.seed) % len(pw_senders)], cred=c))
+        for j, p in enumerate(pw_senders):
+            inter.append(dict(path=p, cred=creds[(j + ctx.seed) % len(creds)]))
+    else:
+        inter = [dict(path=p, cred=c) for p in pw_senders for c in creds]
+    n_plain = len(cases)
+    cases += inter
     recs = []
     for i, c in enumerate(cases):
         p = c["path"]
+        other = next(x for x in creds[(i % len(creds)):] + creds if x["user"] != c["cred"]["user"] and x["pass"] != c["cred"]["pass"]
+                     and len(x["pass"]) > 0)
         recs.append(dict(id=i, kind=p["kind"], allowed=p["allowed"], **{"class": p["class"]}, script=p["script"],
                          user=c["cred"]["user"], **{"pass": c["cred"]["pass"]},
-                         child=(p["kind"] == "pw" and "challenge" in p["script"])))
+                         child=(p["kind"] == "pw" and "challenge" in p["script"]),
+                         inter=i >= n_plain, user2=other["user"], pass2=other["pass"]))
     cp, tp = os.path.join(ctx.tmp, "auth_cases.ndjson"), os.path.join(ctx.tmp, "auth_trace.ndjson")
     vf.write_ndjson(cp, recs)
     rc, out = vf.run_gotest(ctx, binary, "^TestVfC20Auth$", env={"VF_C20_CASES": cp, "VF_C20_TRACE": tp}, timeout=800)
@@ -272,10 +289,32 @@ def auth_part(ctx, binary):
                 continue
             nviol += 1
             cls = "approved-list=%s" % ("default" if not rec["allowed"] else "custom")
-            key = "auth-%s-%s-%s" % (kind, rec["kind"], cls)
+            key = "auth-%s-%s-%s%s" % (kind, rec["kind"], cls, "-interleaved-handshakes" if rec.get("inter") else "")
             agg.setdefault(key, []).append(("%s: client %s allowed=%s, server class %r, script %s, event %s" % (
                 kind, rec["kind"], rec["allowed"] or "default list", rec["class"], rec["script"], _key(ev)[:300]),
                 dict(case=rec, events=bycase[mv["id"]])))
+    # unit level, held-and-re-read: every ordered pair of different credential sets
+    crp, hp = os.path.join(ctx.tmp, "auth_creds.ndjson"), os.path.join(ctx.tmp, "auth_held.ndjson")
+    vf.write_ndjson(crp, [dict(user=c["user"], **{"pass": c["pass"]}) for c in creds])
+    rc, hout = vf.run_gotest(ctx, binary, "^TestVfC20Held$", env={"VF_C20_CREDS": crp, "VF_C20_HELD": hp}, timeout=300)
+    hm = re.search(r"^VFSUMMARY (.*)$", hout, re.M)
+    if not hm or "--- PASS" not in hout:
+        raise vf.Inconclusive("held-token driver failed:\n" + hout[-2000:])
+    held = vf.read_ndjson(hp)
+    th = vf.run_tlc(ctx, "Trace_Auth", "Trace_Auth.cfg", workers=1, timeout=600, deadlock=False, env={"VF_TRACE": hp}, name="auth_held")
+    if not th.ok or th.distinct != len(held) + 1:
+        raise vf.Inconclusive("Trace_Auth failed on the held tokens: %s\n%s" % (th.error or th.violated, th.out[-2000:]))
+    nheld = json.loads(hm.group(1))["held_tokens"]
+    for mv in vf.tlc_printed(th.out, "MONVIOL"):
+        ev = held[mv["line"] - 1]
+        case = next(e for e in held if e["id"] == mv["id"] and e["ev"] == "case")
+        for kind in mv["kinds"]:
+            if kind.startswith("drift-"):
+                continue
+            nviol += 1
+            agg.setdefault("auth-%s-pw-%s" % (kind, case["via"]), []).append((
+                "%s: the token PasswordAuthenticator.Challenge returned for user %s, re-read after ANOTHER authenticator's Challenge "
+                "ran (%s), is %s" % (kind, case["user"], case["via"], _key(ev)[:300]), dict(case=case, event=ev)))
     _flush(ctx, agg)
     _probe_auth(ctx, ordered, {mv["id"] for mv in mon})
     # replay comparison with the machine's outcome (outside the property: drift), and the known crash
@@ -310,7 +349,8 @@ def auth_part(ctx, binary):
             "%d property violations" % (len(paths), len(recs), tokens, len(crashes), nviol))
     sample_i = next((i for i, r in enumerate(recs) if r["kind"] == "pw" and r["script"] == ["authenticate", "success"]
                      and any(x > 127 for x in r["user"]) and 0 < len(r["pass"]) < 20), 0)
-    return dict(states=m.distinct + t.distinct, transitions=m.generated + t.generated, behaviours=len(paths), sessions=len(recs),
+    return dict(states=m.distinct + t.distinct + th.distinct, transitions=m.generated + t.generated + th.generated,
+                interleaved_sessions=len(inter), held_tokens=nheld, behaviours=len(paths), sessions=len(recs),
                 credential_pairs=len(creds), auth_responses=tokens, crashes_c05=len(crashes), trace_events=len(ordered),
                 sample=dict(kind="auth-behaviour", case=recs[sample_i], events=bycase[sample_i][:12]))
 
@@ -325,7 +365,8 @@ def run(ctx):
         traces_validated_against_impl=tls["executions"] + auth["sessions"],
         exhaustive=True,
         tls_rows=tls["rows"], tls_row_executions=tls["executions"], tls_rows_error_required=tls["rows_with_error_required"], tls_real_handshakes=tls["handshakes"],
-        auth_behaviours=auth["behaviours"], auth_sessions=auth["sessions"], auth_credential_pairs=auth["credential_pairs"],
+        auth_behaviours=auth["behaviours"], auth_sessions=auth["sessions"], auth_interleaved_sessions=auth["interleaved_sessions"],
+        auth_held_and_reread_tokens=auth["held_tokens"], auth_credential_pairs=auth["credential_pairs"],
         auth_responses_captured=auth["auth_responses"], auth_trace_events=auth["trace_events"],
         auth_child_crashes_c05=auth["crashes_c05"],
         samples=[tls["sample"], auth["sample"]],
